@@ -28,6 +28,10 @@ func runC07(p *eng.Prog, r *eng.Report, tier string) {
 	c07ServeEOF(c)
 	// a response whose rest is not read is parsed as top-level stanzas, which get replies
 	handoffDrained(c, "C07.7")
+	attrGetNotUsed(c, "C07.12")
+	// the multiplexer's fallback answers with the id and type that stanza.NewIQ
+	// read: the request's own attributes (C14.6)
+	c14OwnAttrs(c, "C07.13")
 }
 
 func c07Default(c *cx) {
@@ -336,6 +340,20 @@ func c07Detector(c *cx) {
 		// without a type, or with a made-up one, is not a reply)
 		c.dom(id, f, w.Stmt, "wroteResp = true [reply type]", []string{
 			"or(eq(xmpp.getIDTyp(*.Attr)#3,\"error\") | eq(xmpp.getIDTyp(*.Attr)#3,\"result\"))"})
+		// ... and under nothing else: the handler's result/error IQ with the
+		// request's id IS the reply, whatever its addressee looks like (a reply
+		// addressed to the normalised form of the sender, or carrying any other
+		// attribute, must not be followed by a second, automatic reply)
+		c.onlyFacts(id, f, w.Stmt, "wroteResp = true [exact]", []string{
+			"lt(recv.level,1)",
+			"xmpp.isIQEmptySpace(*.Name)",
+			"eq(recv.id,xmpp.getIDTyp(*.Attr)#2)",
+			"eq(xmpp.getIDTyp(*.Attr)#2,recv.id)",
+			"istype(*;encoding/xml.StartElement)",
+			"or(eq(xmpp.getIDTyp(*.Attr)#3,\"error\") | eq(xmpp.getIDTyp(*.Attr)#3,\"result\"))",
+			"eq(mellium.im/xmlstream.TokenWriter.EncodeToken[recv.TokenWriter](p0),nil)",
+			"eq(*.EncodeToken[*](p0),nil)",
+		})
 	}
 	// id and type are read from the stanza's own (unqualified) attributes
 	if gi := c.fn(id, "", "getIDTyp"); gi != nil {
